@@ -6,4 +6,4 @@ CONSTANTS
   F = 16
   Pad = 4
   FixTail = FALSE
-INVARIANTS TypeOK CaseSane StepsAgree NeverUnmapped ResultIsSpec NoOverRead TailIndependent
+INVARIANTS TypeOK CaseSane StepsAgree ClosedFormOK NeverUnmapped ResultIsSpec NoOverRead TailIndependent
